@@ -87,7 +87,15 @@ static void crash_h(int sig)
     if (g_shared && !strcmp(g_shared->verdict, "run")) { strcpy(g_shared->verdict, "viol"); snprintf(g_shared->clause, sizeof g_shared->clause, sig == SIGSEGV ? "crash-or-unbounded-recursion" : "crash"); snprintf(g_shared->detail, sizeof g_shared->detail, "signal %d inside the storage device (SIGSEGV with a deep stack = unbounded recursion)", sig); }
     _exit(3);
 }
+static Outcome run_forked_limit(int kind, const std::string& ops, const Faults& f, unsigned limit_s);
+// a history without a verdict inside the wall-clock limit is run again alone with ten times the limit before it is called a hang
 static Outcome run_forked(int kind, const std::string& ops, const Faults& f)
+{
+    Outcome o = run_forked_limit(kind, ops, f, f.err ? 3 : 10);
+    if (!strcmp(o.verdict, "viol") && !strcmp(o.clause, "hang")) o = run_forked_limit(kind, ops, f, f.err ? 30 : 100);
+    return o;
+}
+static Outcome run_forked_limit(int kind, const std::string& ops, const Faults& f, unsigned limit_s)
 {
     static Outcome* sh = nullptr;
     if (!sh) { sh = (Outcome*)mmap(nullptr, 4096, PROT_READ | PROT_WRITE, MAP_SHARED | MAP_ANONYMOUS, -1, 0); g_shared = sh; }
@@ -99,7 +107,7 @@ static Outcome run_forked(int kind, const std::string& ops, const Faults& f)
         struct sigaction sa; memset(&sa, 0, sizeof sa); sa.sa_handler = crash_h; sa.sa_flags = SA_ONSTACK;
         sigaction(SIGSEGV, &sa, nullptr); sigaction(SIGBUS, &sa, nullptr); sigaction(SIGABRT, &sa, nullptr); sigaction(SIGFPE, &sa, nullptr);
         struct rlimit rl = { 4 << 20, 4 << 20 }; setrlimit(RLIMIT_STACK, &rl);
-        alarm(f.err ? 3 : 10);
+        alarm(limit_s);
         Outcome o; child_run(kind, ops, f, &o);
         *sh = o;
         _exit(0);
@@ -108,7 +116,7 @@ static Outcome run_forked(int kind, const std::string& ops, const Faults& f)
     Outcome o = *sh;
     if (!strcmp(o.verdict, "run")) {
         strcpy(o.verdict, "viol");
-        if (WIFSIGNALED(st) && WTERMSIG(st) == SIGALRM) { strcpy(o.clause, "hang"); snprintf(o.detail, sizeof o.detail, "the device call did not return within %d s", f.err ? 3 : 10); }
+        if (WIFSIGNALED(st) && WTERMSIG(st) == SIGALRM) { strcpy(o.clause, "hang"); snprintf(o.detail, sizeof o.detail, "the device call did not return within %u s", limit_s); }
         else { strcpy(o.clause, "crash"); snprintf(o.detail, sizeof o.detail, "child ended with wait status 0x%x", st); }
     }
     return o;
